@@ -998,6 +998,8 @@ class Fresh:
         return self.ans[qq]
 
 
+BUDGET_HOW = ('jedi.Script(source, project=jedi.Project(<empty directory>)) for the used and the fresh Script; '
+              'otherwise as the other session streams: ')
 SESSION_HOW = ('s = jedi.Script(source); answers = [s.<query>(line, column) for each query of `session` in order]; '
                'compare the answer at index `at` with jedi.Script(source).<query>(line, column) on a fresh Script')
 
@@ -1181,17 +1183,18 @@ def budget_item(item):
     jedi.settings.cache_directory = item['cache']
     BlockedHook.install()
     src = BG.build(item['spec'])['source']
+    mk = EmptyProject(item['cache'], src)
     fresh = {}
 
     def fresh_of(qq):
         k = json.dumps(qq)
         if k not in fresh:
-            s = jedi.Script(src)
+            s = mk()
             fresh[k] = (ask(s, tuple(qq)), budget_used(s))
         return fresh[k]
     recs = []
     for sess in item['sessions']:
-        s = jedi.Script(src)
+        s = mk()
         steps = []
         for qq in sess:
             before = bookkeeping_objects(s)
@@ -1205,6 +1208,20 @@ def budget_item(item):
                           'not_recreated': sorted(k for k in before if before[k] is after[k])})
         recs.append(steps)
     return recs
+
+
+class EmptyProject:
+    """Scripts of `src` in a project of their own: an empty directory.  With the default project (the
+    directory the check is started from) get_references and the dynamic parameter search open and
+    parse up to 30 files of that directory that contain the name - slow, and not part of the input"""
+    def __init__(self, base, src):
+        self.dir = os.path.join(base, 'empty-project')
+        os.makedirs(self.dir, exist_ok=True)
+        self.src = src
+
+    def __call__(self):
+        import jedi
+        return jedi.Script(self.src, project=jedi.Project(self.dir))
 
 
 BOOKKEEPING = ('execution_recursion_detector', 'recursion_detector', 'inferred_element_counts')
@@ -1271,7 +1288,7 @@ class BudgetRun:
                     continue
             prog = BG.build(spec)
             sessions = BG.sessions(rng, prog, ctx.quick, spec['family'])
-            size = 4 if spec['family'] == 'total' else 12
+            size = 2 if spec['family'] == 'total' else 12
             for i in range(0, len(sessions), size):
                 items.append({'spec': spec, 'sessions': sessions[i:i + size]})
         # corpus: minimised regression inputs of this stream
@@ -1364,7 +1381,7 @@ class BudgetRun:
                                'queries_of_the_session_that_ran_into_a_limit_by_themselves': list(hits),
                                'limits': self.lim, 'cause': cause, 'boundary_state': st['state']}
                         ctx.fail('budget', 'answer on a used Script differs from the answer of a fresh Script: '
-                                 + diff, case, expected=exp, observed=obs, how=SESSION_HOW)
+                                 + diff, case, expected=exp, observed=obs, how=BUDGET_HOW + SESSION_HOW)
                     prev_level = budget_level(fam, spec['n'], st['used']) if ans[0] != 'ValueError' else prev_level
 
 
@@ -1622,14 +1639,25 @@ def replay(ctx, payload):
     if 'session' in inp:
         with PrivateCache() as pcache, SearchHook():
             mk = lambda: jedi.Script(inp['source'])
+            if inp.get('family'):
+                # stream budget: the Script lives in an empty project
+                mk = EmptyProject(pcache.dir, inp['source'])
+                BlockedHook.install()
             if inp.get('files'):
                 # a c16_memo program: its files in a directory of their own, main.py given as text
                 mk = MemoProject(pcache.dir, 0, {'files': inp['files'], 'main': inp['source']})
             s = mk()
             ndiff = 0
             for i, qq in enumerate(inp['session']):
+                before = bookkeeping_objects(s)
                 a = ask(s, tuple(qq))
-                f = ask(mk(), tuple(qq))
+                after = bookkeeping_objects(s)
+                fs = mk()
+                f = ask(fs, tuple(qq))
+                if inp.get('family'):
+                    print('   bookkeeping objects not re-created by this query:',
+                          [k for k in before if before[k] is after[k]] or 'none', '| counted so far on the used Script:',
+                          budget_used(s), '| on the fresh Script:', budget_used(fs))
                 n = lambda r: '%d results' % len(r[1]) if r[0] == 'ok' else r[0]
                 print(i, qq, 'used Script:', n(a), short(a, 300), '| fresh Script:', n(f), short(f, 300),
                       '' if a == f else '   <-- DIFFERS (%s)' % classify(f, a))
